@@ -468,7 +468,8 @@ namespace xsimd
             template <typename ITy0, typename ITy1, typename... ITys>
             constexpr bool is_zip_lo(size_t bsize, ITy0 index0, ITy1 index1, ITys... indices)
             {
-                return index0 == (bsize - (sizeof...(indices) + 2)) && index1 == (2 * bsize - (sizeof...(indices) + 2)) && is_zip_lo(bsize, indices...);
+                // the pair at position p = (bsize - remaining) / 2 of zip_lo is (p, bsize + p)
+                return index0 == (bsize - (sizeof...(indices) + 2)) / 2 && index1 == bsize + (bsize - (sizeof...(indices) + 2)) / 2 && is_zip_lo(bsize, indices...);
             }
 
             constexpr bool is_zip_hi(size_t)
@@ -485,7 +486,8 @@ namespace xsimd
             template <typename ITy0, typename ITy1, typename... ITys>
             constexpr bool is_zip_hi(size_t bsize, ITy0 index0, ITy1 index1, ITys... indices)
             {
-                return index0 == (bsize / 2 + bsize - (sizeof...(indices) + 2)) && index1 == (bsize / 2 + 2 * bsize - (sizeof...(indices) + 2)) && is_zip_hi(bsize, indices...);
+                // the pair at position p of zip_hi is (bsize / 2 + p, bsize + bsize / 2 + p)
+                return index0 == bsize / 2 + (bsize - (sizeof...(indices) + 2)) / 2 && index1 == bsize + bsize / 2 + (bsize - (sizeof...(indices) + 2)) / 2 && is_zip_hi(bsize, indices...);
             }
 
             constexpr bool is_select(size_t)
